@@ -304,6 +304,19 @@ def solve_obligation(ob, timeout_ms, use_cvc5=True):
         if c == 'unsat':
             return {'status': 'discharged', 'backend': 'cvc5', 'time_s': round(time.time() - t0, 3)}
         res['cvc5'] = c
+        # last resort: z3 again from scratch with another seed and three times the budget (verdicts
+        # must not flip when all cores are busy)
+        s2 = z3.Solver()
+        s2.set('timeout', timeout_ms * 3)
+        s2.set('random_seed', 7)
+        for a in ob.axioms:
+            s2.add(a)
+        for c_ in ob.pc:
+            s2.add(c_)
+        s2.add(z3.Not(g))
+        if s2.check() == z3.unsat:
+            return {'status': 'discharged', 'backend': 'z3(retry)', 'time_s': round(time.time() - t0, 3)}
+        res['time_s'] = round(time.time() - t0, 3)
     return res
 
 
@@ -398,6 +411,9 @@ def cvc5_check(solver, timeout_ms):
     try:
         smt = solver.to_smt2()
         with tempfile.NamedTemporaryFile('w', suffix='.smt2', delete=False) as f:
+            # z3 prints its internal split of seq.nth (in-bounds part nth_i, out-of-bounds part nth_u);
+            # both are seq.nth for cvc5 (nth = ite(in bounds, nth_i, nth_u))
+            smt = smt.replace('seq.nth_i', 'seq.nth').replace('seq.nth_u', 'seq.nth')
             f.write('(set-logic ALL)\n' + smt)
             name = f.name
         try:
@@ -421,7 +437,7 @@ def verify_function(src, reg, key, opts=None):
     timeout_ms = opts.get('timeout_ms', QUICK_TIMEOUT_MS)
     max_paths = opts.get('max_paths', 20000)
     only = opts.get('only')
-    failed_names = set()
+    failed_names = {}        # obligation name -> 'failed' | 'unknown' (first non-discharged status)
     try:
         for label, builder in build_cases(reg, contract, fnode):
             todo = [[]]
@@ -455,7 +471,7 @@ def verify_function(src, reg, key, opts=None):
                             r = inc.solve(ob, opts.get('cvc5', True))
                             if r['status'] == 'discharged':
                                 continue          # (counted on the feasible sibling path, or vacuous)
-                            failed_names.add(ob.name)
+                            failed_names[ob.name] = r['status']
                             r.update({'name': ob.name, 'kind': ob.kind, 'case': label, 'path': pstr,
                                       'outcome': 'path ends: precondition false'})
                             if ob.info:
@@ -479,16 +495,21 @@ def verify_function(src, reg, key, opts=None):
                     if ob.name in failed_names:
                         # the same obligation already failed on another path: not solved again
                         # (satisfiable queries over byte strings are slow; one failure decides)
-                        r = {'status': 'failed', 'backend': 'not-solved(same obligation failed on another path)',
+                        r = {'status': failed_names[ob.name],
+                             'backend': 'not-solved(same obligation %s on another path)' % failed_names[ob.name],
                              'time_s': 0.0}
                         for c_ in ob.pc[inc.n:]:
                             inc.s.add(c_)
                             inc._abs_add(c_)
                         inc.n = max(inc.n, len(ob.pc))
+                    elif any(re.search(p_, ob.name) for p_ in opts.get('cheap', ())):
+                        r = solve_obligation(ob, 4000, use_cvc5=False)
+                        if r['status'] != 'discharged':
+                            failed_names[ob.name] = r['status']
                     else:
                         r = inc.solve(ob, opts.get('cvc5', True))
                         if r['status'] != 'discharged':
-                            failed_names.add(ob.name)
+                            failed_names[ob.name] = r['status']      # 'failed' (refuted) or 'unknown'
                     r.update({'name': ob.name, 'kind': ob.kind, 'case': label, 'path': pstr,
                               'outcome': ctx.ghost.get('outcome', status)})
                     if ob.info:
